@@ -26,13 +26,14 @@ CLAIM = {
             "increasing in m) and by a differential monitor over perturbed start values and both damping strategies.",
     "note": "Partial: uniqueness is exact-solution mathematics; the distance between two approximately converged "
             "iterates is observed by the monitor (bound 1e-6 with solver tolerances 1e-9), not proved. Monotonicity is "
-            "proved for the incompressible law; for the gas law and colebrook / swamee-jain friction it is a hypothesis "
-            "of the theorem. Thermal start values (tfluid_k) are covered by the generated flow fact and the monitor only. "
+            "proved for the incompressible Nikuradse law and, in squared absolute pressures, for the isothermal "
+            "constant-K level-pipe gas law (generated kernels); with pressure-dependent K, height terms for gases and "
+            "colebrook / swamee-jain friction it is a hypothesis of the theorem. Thermal start values (tfluid_k) are covered by the generated flow fact and the monitor only. "
             "Axioms (Coq reals): ClassicalDedekindReals.sig_forall_dec, FunctionalExtensionality.functional_extensionality_dep.",
     "technique": "Coq proof (graph uniqueness theorem over R) + generated source facts + differential monitor",
     "design": "DESIGN.md 4/C08 + design_notes/C08.md",
 }
-GEN = [("StartValueUses", startvalues.generate)] + kernels.gen_entries(["KHydIncompNp", "KHydIncompNb"]) + \
+GEN = [("StartValueUses", startvalues.generate)] + kernels.gen_entries(["KHydIncompNp", "KHydIncompNb", "KHydCompNp", "KHydCompNb"]) + \
     [("KCalcLambda", c09_kernels.generate)]
 
 TIGHT = dict(tol_p=1e-9, tol_m=1e-9, tol_res=1e-6, iter=200)
